@@ -21,11 +21,11 @@ CHECKS = {
  "C11": ("4 C11", "The trace spec keeps memo[store] -> digest of the first validation (trees + diagnostics in order) and demands equality for every later validation of an equal (id, content) map: repeated calls, new instances, reversed / shuffled insertion orders, fresh threads and 2-3 separate OS processes; ascending (line, column) order is checked on every observation. TLC enumerates family 'order' (several diagnostics on one line, ambiguous imports, duplicate keys)."),
  "C12": ("4 C12", "AidlStore/AidlProject is the state machine; TLC enumerates MC_Hist (all histories of the stated length over 3 ids x 4 contents, from the empty parser and from every one of the 125 abstract states through two different entry histories) checking KeysExact / PureFunction / OnlyNamedSlotChanges, and attaches the abstract store after every step; the replay compares the live parser with a fresh parser loaded from that abstract store after every step (trace spec memo), add_file outcomes included."),
  "C13": ("4 C13", "AidlProject.Locality is model-checked; TLC enumerates every transition of the locality model (8 contents incl. body variants, kind changes, unrelated and malformed files) and the trace spec requires an equal result for a file whenever its content and the facts about its imports (key registered? which kind?) are equal, before/after each perturbation."),
- "C05": ("4 C05", "AidlValidate.AllowedRK / ExpC05 state the scoping rule; TLC enumerates MC_Validate family 'res' exhaustively within the bound and every recorded Validate event (also of random projects) is judged by the trace spec: resolved kind of every named type at any depth must be in the allowed set, and exactly one unknown-type Error per unresolved name."),
- "C06": ("4 C06", "AidlValidate.ExpC06 states the import / forward-declaration diagnostics as a bag; family 'imp' (all import lists up to the bound x forward lists x usage) is enumerated by TLC, replayed, and the trace spec demands a perfect matching between the expected bag and the observed slice (ranges, severities, related ranges)."),
+ "C05": ("4 C05", "AidlValidate.AllowedRK / ExpC05 state the scoping rule; TLC enumerates MC_Validate family 'res' exhaustively within the bound and every recorded Validate event (also of random projects) is judged by the trace spec: resolved kind of every named type at any depth must be in the allowed set, and exactly one unknown-type Error per unresolved name; 'among the files currently in the parser' is exercised by every operation history of length 3 (thorough 4) over two ids (MC_Hist), validated in full after every step."),
+ "C06": ("4 C06", "AidlValidate.ExpC06 states the import / forward-declaration diagnostics as a bag; family 'imp' (all import lists up to the bound x forward lists x usage) is enumerated by TLC, replayed, and the trace spec demands a perfect matching between the expected bag and the observed slice (ranges, severities, related ranges); whether an import / forward declaration is 'used' follows the scoping rule's own answer wherever it leaves no choice, not the classification the code reports."),
  "C07": ("4 C07", "AidlValidate.DirReq / ExpC07; family 'dir' is the complete 816-cell product (17 categories x 4 directions x method oneway x interface oneway x 3 positions), replayed and judged by the trace spec; random projects on top."),
  "C08": ("4 C08", "AidlValidate.ContainerItems / ExpC08 over all container nodes at any depth; family 'cont' enumerates constructor paths to depth 2 (quick) / 3 (thorough) x 16 leaves x 4 positions plus all leaf pairs in both map slots."),
- "C09": ("4 C09", "AidlValidate.ExpC09 is a single left-to-right definition; family 'meth' enumerates all method sequences up to length 3 (quick) / 4 (thorough) over 3 names x {no code, 3 codes}, with interleaved constants; related ranges are compared."),
+ "C09": ("4 C09", "AidlValidate.ExpC09 is a single left-to-right definition; family 'meth' enumerates all method sequences up to length 3 (quick) / 4 (thorough) over 3 names x {no code, 3 codes}, with interleaved constants; related ranges are compared; every method's code must equal the code written in the source (32-bit edge values, zero padding)."),
  "C10": ("4 C10", "AidlValidate.OnewayFlagsOK / ExpC10; family 'ow' enumerates interface oneway x per-method oneway x return category (17) for up to 2 methods (3 in thorough over 4 categories)."),
 }
 
